@@ -149,6 +149,24 @@ def gen_queries(rng: Rng, world: dict) -> list[dict]:
         else:
             cwd = rng.choice([d for d in dirs if d.count("/") <= 1 and clean_above(d)] or ["proj"])
         under = [d for d in dirs if d == cwd or d.startswith(cwd + "/")]
+        sibs = [d for d in dirs if d.count("/") == 1 and d != cwd] if cwd.count("/") == 1 else []
+        if sibs and rng.chance(0.2):
+            # a target OUTSIDE the working directory: a sibling directory (by preference one whose name
+            # merely extends the cwd's name: a / a1), or something below it, spelled absolutely or ../rel.
+            # Applicable ignore files are then those from the common ancestor down to the file.
+            pref = [d for d in sibs if d.startswith(cwd) or cwd.startswith(d)]
+            sib = rng.choice(pref) if pref and rng.chance(0.6) else rng.choice(sibs)
+            below = [d for d in dirs if d == sib or d.startswith(sib + "/")] + [f for f in files if f.startswith(sib + "/")]
+            target = rng.choice(below)
+            chosen = ["$ABS", os.path.relpath(target, cwd)]
+            if target in dirs:
+                chosen.append("$ABS/")
+            exts = rng.choice([None, None, [".sql"], [".sql", ".sql.j2"]])
+            flag = rng.chance(0.9)
+            for sp in chosen:
+                qs.append({"cwd": cwd, "target": target, "spelling": sp, "ignore_files": flag, "exts": exts,
+                           "via": "lint" if rng.chance(0.15) else "func", "listing": rng.choice(["sorted", "shuffle", "reverse"])})
+            continue
         if world.get("chdir_mode") and rng.chance(0.45):
             target = cwd
         elif rng.chance(0.75) or not files:
@@ -202,15 +220,18 @@ def model(world: dict, q: dict) -> list[str]:
         ignored = False
         if q["ignore_files"]:
             fdir = os.path.dirname(f)
+            # applicable: ignore files from the common ancestor of (cwd, target) - the cwd itself for
+            # targets inside it - down to the file's directory
+            base = os.path.commonpath([cwd, target if not is_file else os.path.dirname(target)])
             chain = []
             d = fdir
             while True:
                 chain.append(d)
-                if d == cwd or "/" not in d:
+                if d == base or "/" not in d:
                     break
                 d = os.path.dirname(d)
             for D in chain:
-                if not (D == cwd or D.startswith(cwd + "/")):
+                if not (D == base or D.startswith(base + "/")):
                     continue
                 S = specs.get(D)
                 if S is None:
@@ -288,6 +309,8 @@ def run_one(ctx: Any, seed: int, tier: str, replay: Optional[dict] = None) -> di
                 path = q["spelling"]
                 if path == "$ABS":
                     path = os.path.join(root, q["target"])
+                elif path == "$ABS/":
+                    path = os.path.join(root, q["target"]) + "/"
                 want = model(world, q)
                 results = {}
                 # (1) inside the history node: chdir + listing mode are events
